@@ -139,7 +139,7 @@ class _FunctionCall(object):
                 _type_info = in_message.get_flat_type_info(in_message)
 
             # an omitted argument gets its declared default, like on the wire
-            ctx.in_object = [v.Attributes.default for v in _type_info.values()]
+            ctx.in_object = [_get_default(v) for v in _type_info.values()]
             for i in range(len(args)):
                 ctx.in_object[i] = args[i]
 
@@ -195,6 +195,13 @@ class _FunctionCall(object):
         logger.warning("%s  end request  %s" % (_big_header, _big_footer))
 
         return retval
+
+
+def _get_default(cls):
+    attrs = cls.Attributes
+    if attrs.default_factory is not None:
+        return attrs.default_factory()
+    return attrs.default
 
 
 def _cb_async(ret, ctx, cnt, fc):
